@@ -16,9 +16,9 @@ func init() {
 		explanation: "Decided (structural, for every batch and index): " +
 			"C13.convmap — in the conversion package every field of a freshly built library/protobuf struct that is initialised from a field of a source struct takes it from the field of the same name (reviewed exceptions: Result.Count <-> Result.TotalCount), and every exported field of each destination type built in a function is initialised there; " +
 			"C13.kindmap — the oneof switch of the expression conversion has a case for every oneof wrapper, each case returns the library node of the matching kind, operands are converted from the wrapper's own operand list and appended in order (a case that returns what a helper given the wrapper returns is judged on the helper's body); " +
-			"C13.loop — in the gRPC handler each iteration over the request's queries appends exactly one element at the end of the response, that element is ToProtobufResult(Execute(ToQuery(current query)), id) — built in the loop or by a helper whose parameters are bound to the current query / range index / id at the call —, no path finishes an iteration without appending, and the response is returned only after the loop; the result converted may also come out of a helper that hands Execute's result on, or be the result remembered for an identical query of the same batch (a map that is filled only with Execute(ToQuery(current query)) under the key it is looked up with, the key being computed from the current query alone by a function that reads both its expression and its group-by list, its error not ignored on both sides, the value used only where the lookup found one); the queries may be converted ahead of the loop by a function of the handler's package (it must append exactly one entry per query, in order, to a list that starts empty, and return it without error only after its loop; the handler then loops over the entries, every field of the current entry stands for what that function stored in it for the current query, a result list by position is filled in every iteration at the current position with Execute(entry's query) or with the result at a position that is tested to lie before the current one and was remembered under the query's key, and a response is returned only where that function is known to have succeeded); a response message copied from one position of the answered list to another is reported (refutation: a repeated query would carry the earlier one's id); " +
+			"C13.loop — in the gRPC handler each iteration over the request's queries appends exactly one element at the end of the response, that element is ToProtobufResult(Execute(ToQuery(current query)), id) — built in the loop or by a helper whose parameters are bound to the current query / range index / id at the call —, no path finishes an iteration without appending, and the response is returned only after the loop; the result converted may also come out of a helper that hands Execute's result on, or be the result remembered for an identical query of the same batch (a map that is filled only with Execute(ToQuery(current query)) under the key it is looked up with, the key being computed from the current query alone by a function that reads both its expression and its group-by list, its error not ignored on both sides, the value used only where the lookup found one); the queries may be converted ahead of the loop by a function of the handler's package (it must append exactly one entry per query, in order, to a list that starts empty, and return it without error only after its loop; the handler then loops over the entries, every field of the current entry stands for what that function stored in it for the current query, a result list by position is filled in every iteration at the current position with Execute(entry's query) or with the result at a position that is tested to lie before the current one and was remembered under the query's key, and a response is returned only where that function is known to have succeeded); the loop may also be left to a map helper of the handler's package that is given the request's queries and a function (the helper must read the current element at a counter that starts at 0, advances by one and runs up to len(list), call the function at exactly one place with that element, append the function's first result — one entry — to a list that starts empty on every path to the next iteration, and return that list without error only after its loop; the element/id clauses are then decided on every non-error return of the function, its parameters bound to the current query and the position the helper passes; the response's result list must be set at one place to the list collected, unchanged, on every path to a response, and a response is returned only where the helper's error is known to be nil); a response message copied from one position of the answered list to another is reported (refutation: a repeated query would carry the earlier one's id); " +
 			"C13.id — the id is the query's Id (the field or its generated getter), replaced by int32(range index + 1) exactly on the branch where Id == 0; " +
-			"C13.nopartial — every error return of the handler carries a nil response, and conversion/execution errors (also of nested operands, also when they arise in a per-query helper of the handler, whose error must then end the handler the same way) are propagated; " +
+			"C13.nopartial — every error return of the handler carries a nil response, and conversion/execution errors (also of nested operands, also when they arise in a per-query helper of the handler, whose error must then end the handler the same way; also when they arise in the function handed to a map helper: that helper may only call it, must return an error wherever the function's error is non-nil, and its own error must end the handler) are propagated; " +
 			"C13.grpcpath — both statement types hand newRows the (converted) result and the bound query's group-by list. " +
 			"NOT decided: equality of counts/groups with the library's answer (values; follows from the field mapping being a bijection, not checked further); losslessness of the protobuf wire encoding (trusted); that two queries with the same batch key (deterministic wire encoding of expression and group-by list) are the same query, and that executing the same query twice on the open index gives the same result (C03/C04).",
 		assumptions: []string{"protobuf-go encodes/decodes messages losslessly", "grpc-go delivers the handler's response/error", "go/ssa, dominance"},
@@ -534,6 +534,11 @@ func c13Loop(c *Ctx) {
 		}
 	}
 	c13SharedMessage(c, fn, name)
+	if len(elems) == 0 && c13Mapped(c, fn, req, name, site) {
+		// the loop is left to a map helper of the handler's package, its body is the function handed to the helper
+		// (rules_ag44.go)
+		return
+	}
 	if len(elems) == 0 && c13TwoPhase(c, fn, req, name, site) {
 		// the queries are converted by a function of the handler's package before the loop; the loop runs over what it
 		// returns (rules_ag31.go)
